@@ -289,6 +289,12 @@ func drvBand(c *ctx) error {
 				if c.rnd.Intn(3) == 0 {
 					t = time.Duration(c.rnd.Int63n(1<<24)) * 128 * time.Second
 				}
+				switch c.rnd.Intn(4) { // not only whole seconds: any instant of a beacon period, in particular its last second
+				case 0:
+					t += time.Duration(c.rnd.Int63n(int64(time.Second)))
+				case 1:
+					t = t/(128*time.Second)*(128*time.Second) + 128*time.Second - time.Duration(c.pick(1, 1000, 250000000, 499999999, 500000000, 500000001, 999999999))
+				}
 				var f uint32
 				code := codeErr(func() error {
 					var err error
